@@ -10,6 +10,7 @@ import (
 	"encoding/hex"
 	"encoding/json"
 	"fmt"
+	"github.com/brutella/hc/util"
 	"math/rand"
 	"os"
 	"os/exec"
@@ -998,7 +999,9 @@ func runHistory(h *History) {
 					}
 					sig := "cnum:bumped-on-" + cls
 					ctx.violate(sig, fmt.Sprintf("c# went %d -> %d although the structure of the attribute database is unchanged (%s; mutations: %s)", m.cnum, cn, cls, kindsOf(plan.Mutations, false)), ex)
-				case changed && cn == m.cnum+1, !changed && cn == m.cnum:
+				case changed && cn == m.cnum+1, !changed && cn == m.cnum, changed && m.cnum == 65535 && cn == 1:
+					// (the last alternative: the wrap from the largest 16-bit number back to 1 that the protocol describes;
+					// not demanded, but accepted)
 					if changed {
 						run.Count("bumps_observed", 1)
 					} else {
@@ -1068,6 +1071,18 @@ func runHistory(h *History) {
 			return
 		}
 		completed++
+		// every sixth history: a storage that has already seen many structural changes.  After the first run the stored
+		// configuration number is set (through hc's own storage API) to a few steps below 2^8, 2^15, 2^16, 2^31 or 2^32;
+		// the following runs walk over the boundary.  The number still goes up by exactly one per structural change and
+		// never because of values (whether an implementation wraps at 65535 is not demanded: see the assumptions).
+		if k == 0 && h.N%6 == 3 {
+			far := []int64{1<<8 - 2, 1<<15 - 2, 1<<16 - 3, 1<<16 - 2, 1<<31 - 2, 1<<32 - 2}[(h.N/6)%6]
+			if st, err := util.NewFileStorage(dir); err == nil && st.Set("version", []byte(strconv.FormatInt(far, 10))) == nil {
+				m.cnum = far
+				run.Count("histories_continued_from_a_large_configuration_number", 1)
+				run.Distinct("large_configuration_number", strconv.FormatInt(far, 10))
+			}
+		}
 	}
 	if completed == len(h.Runs) {
 		run.Count("histories_completed", 1)
